@@ -135,6 +135,20 @@ def _cases(ctx, deep=False):
         for s_ in range(8):
             cases.append({'cfg': {'fault_at': k, 'fault_mode': 'driver'}, 'seed': rng.randrange(1 << 30),
                           'script': [['sync_open'], ['sleep', 0.5], ['sync_close'], ['reconnect']]})
+    # a slow application callback: the user thread closes the link / the driver thread reports an error while the
+    # dispatcher thread is still inside the connected (or link_established) callbacks
+    for cbn in ('connected', 'link_established'):
+        for k in range(16, 30) if cbn == 'connected' else range(1, 6):
+            for s_ in range(2):
+                cases.append({'cfg': {}, 'seed': rng.randrange(1 << 30), 'cb_actions': [[cbn, 'sleep', 0, 0.05]],
+                              'script': [['bg_close', k], ['open'], ['sleep', 1.0], ['close'], ['reconnect']]})
+                # ... and the closing thread is itself held up in a slow disconnected callback
+                cases.append({'cfg': {}, 'seed': rng.randrange(1 << 30),
+                              'cb_actions': [[cbn, 'sleep', 0, 0.05], ['disconnected', 'sleep', 0, 0.2]],
+                              'script': [['bg_close', k], ['open'], ['sleep', 1.0], ['close'], ['reconnect']]})
+                cases.append({'cfg': {'fault_at': k, 'fault_mode': 'driver'}, 'seed': rng.randrange(1 << 30),
+                              'cb_actions': [[cbn, 'sleep', 0, 0.05]],
+                              'script': [['open'], ['sleep', 1.0], ['close'], ['reconnect']]})
     # link error during connect(): reported synchronously, by the driver's thread before connect() returns, or by
     # the driver thread as soon as it is scheduled
     for s in range(seeds * 2):
@@ -298,6 +312,7 @@ def tie(ctx):
             skipped += 1          # runs on which the property itself fails are handled by the oracle
             continue
         reent = bool(c.get('cb_actions')) and all(a[1] == 'close' and a[0] != 'param_update' for a in c['cb_actions'])
+        # (a sleeping callback is not a transition: such runs go the ordinary way)
         if c02_oracle.overlapping(r['log']) or (not reent and c02_oracle.reentrant_split(r['log'])):
             overl += 1            # two transition functions overlapped in time: outside the atomic model (the oracle
             continue              # still judged the run against the property text)
